@@ -5,7 +5,7 @@
    x_<n>), arbitrary white space (blank, tab, LF, CR) after every token (non-empty after "not"), comment lines and stray
    dots between statements, comment lines before the first statement, "#incremental." / "#step." for steps.
    Quantifying over all txt with G_program inc steps txt is quantifying over all spellings sigma and layouts l. *)
-Require Import V.Lib.Base V.Lib.Calls V.Lib.Contract V.C09.Spec V.C10.Model V.C10.Args V.C10.Grammar V.C10.ProofsProg V.C10.ProofsContract.
+Require Import V.Lib.Base V.Lib.Calls V.Lib.Contract V.C09.Spec V.C10.Model V.C10.Args V.C10.Grammar V.C10.ProofsProg V.C10.ProofsContract V.C10.ProofsFuel V.C10.Print V.C10.ProofsPrint.
 Local Open Scope Z_scope.
 
 (* Round trip: every text of a valid program is accepted (status 1, no error line) and the reader delivers exactly
@@ -27,17 +27,35 @@ Theorem c10_layout : forall inc steps txt1 txt2,
 Proof. intros inc steps t1 t2 H G1 G2. rewrite (roundtrip inc steps t1 H G1), (roundtrip inc steps t2 H G2). reflexivity. Qed.
 Print Assumptions c10_layout.
 
+(* The same for the concrete printer of C10/Print.v: print_text sigma l inc steps, where sigma k chooses the spelling of
+   the k-th token if it is an atom and l k the white space after the k-th token - for ALL sigma and l. *)
+Theorem c10_roundtrip_printer : forall sigma l inc steps,
+  Forall (Forall stmt_ok) steps -> steps <> [] -> (inc = false -> length steps = 1%nat) -> Forall (fun cs => cs <> []) (tl steps) ->
+  observe (read_text (print_text sigma l inc steps)) = 1 :: 0 :: enc_calls (program_calls inc steps).
+Proof. exact printer_roundtrip. Qed.
+Print Assumptions c10_roundtrip_printer.
+Theorem c10_layout_printer : forall sigma l sigma' l' inc steps,
+  Forall (Forall stmt_ok) steps -> steps <> [] -> (inc = false -> length steps = 1%nat) -> Forall (fun cs => cs <> []) (tl steps) ->
+  observe (read_text (print_text sigma l inc steps)) = observe (read_text (print_text sigma' l' inc steps)).
+Proof. intros. rewrite !printer_roundtrip by assumption. reflexivity. Qed.
+Print Assumptions c10_layout_printer.
+
 (* Consumer contract (support for C04), for EVERY byte list t, accepted or not, no validity hypothesis: the calls the
    reader delivers satisfy V.Lib.Contract.contract_ok (initProgram first and once, directives only inside
    beginStep/endStep, atoms 1..2^31-1, non-zero literals, rule-body weights >= 0, head type 0/1, external value 0..3,
    heuristic type 0..5 and priority 0..2^31-1, int-range bounds / priorities / edge nodes), and an accepted input
-   leaves no step open.  (A loop of the model that ran out of fuel would end as a parse error and is covered by the
-   statement; that the fuel S(length rest) is never exhausted is NOT proved here.) *)
+   leaves no step open. *)
 Theorem c10_contract : forall t,
   contract_ok (delivered (read_text t)) = true /\
   (accepted (read_text t) = true -> steps_closed (delivered (read_text t)) = true).
 Proof. exact contract_all. Qed.
 Print Assumptions c10_contract.
+
+(* The loops of the model carry fuel S(length of the remaining input); an exhausted loop would end the run with the
+   line number -1 (Model.oof), real errors carry the stream's line number >= 1.  For EVERY byte list: never exhausted. *)
+Theorem c10_no_fuel_exhaustion : forall t c, read_text t <> RErr (-1) c.
+Proof. exact no_fuel_exhaustion. Qed.
+Print Assumptions c10_no_fuel_exhaustion.
 
 Example c10_smoke : run_case [2; 97; 46] = [1; 0; 1; 0; 2; 4; 0; 1; 1; 0; 3].
 Proof. vm_compute. reflexivity. Qed.
@@ -102,3 +120,9 @@ Proof.
 Qed.
 Example ex2_read : observe (read_text ex2_text) = 1 :: 0 :: enc_calls (program_calls false ex2_steps).
 Proof. vm_compute. reflexivity. Qed.
+
+(* the printer on ex_steps with a spelling / layout choice *)
+Definition ex_l (k : nat) : list Z :=
+  match k with 1%nat => [9; 65] | 2%nat => [10] | 3%nat => [32] | 5%nat => [32] | 6%nat => [32] | _ => [] end.
+Example ex_print : exists t, print_text (fun k => k) ex_l false ex_steps = t /\ observe (read_text t) = 1 :: 0 :: enc_calls (program_calls false ex_steps).
+Proof. eexists. split; [vm_compute; reflexivity | vm_compute; reflexivity]. Qed.
